@@ -55,6 +55,18 @@ type cell struct {
 	kind   faultKind   // faults mode
 	action closeAction // closecancel mode
 	index  int
+	ctx    ctxKind // kind of Context the script uses (not part of the cell's name: a seeded dimension)
+}
+
+// pickCtxKind chooses the Context kind of a run: a pure function of the cell
+// number, the repetition and the seed, so that neighbouring cells differ, a
+// cell sees every kind within three repetitions, and a replay gets the same
+// kind.  The cancel action needs a Context that can be cancelled.
+func pickCtxKind(c cell, cellNo, rep, seed uint64) ctxKind {
+	if c.action == actCancel {
+		return ctxCancellable
+	}
+	return ctxKind((cellNo + rep + seed) % uint64(nCtxKinds))
 }
 
 func (c cell) String() string {
@@ -111,7 +123,7 @@ func (d *c09) runCell(idx uint64, c cell, seed uint64, desc string) (caseOutcome
 		bmu.Lock()
 		b = nb
 		bmu.Unlock()
-		sc := newSctx(nb)
+		sc := newSctxKind(nb, c.ctx)
 		var injWG sync.WaitGroup
 		stopInj := make(chan struct{})
 		if c.action != actNone {
@@ -335,6 +347,7 @@ func runC09(cfg *common.Config, rec *common.Recorder) {
 		grid = g2
 		total = 0
 	}
+	forceCtx, haveForceCtx := ctxKindByName(extraStr(cfg.Extra, "ctx")) // debugging aid: ctx=background
 	G := uint64(len(grid))
 	rec.Max("max_grid_size_"+cfg.Mode, int64(G))
 	rec.Max("max_neg_grid_size_"+cfg.Mode, int64(1000000-G))
@@ -345,8 +358,13 @@ func runC09(cfg *common.Config, rec *common.Recorder) {
 		c := grid[i%G]
 		rep := i / G
 		seed := common.CaseSeed(cfg.Seed+uint64(salt)*7919, cfg.Prop+"/"+cfg.Mode, i)
-		rec.Case(i, c.String()+fmt.Sprintf(" rep=%d", rep))
+		c.ctx = pickCtxKind(c, i%G, rep, cfg.Seed+uint64(salt))
+		if haveForceCtx && c.action != actCancel {
+			c.ctx = forceCtx
+		}
+		rec.Case(i, c.String()+fmt.Sprintf(" rep=%d ctx=%s", rep, c.ctx))
 		out, b := d.runCell(i, c, seed, c.String())
+		rec.Count("runs_ctx_"+c.ctx.String(), 1)
 		if rep == 0 {
 			rec.Count("grid_cells_run_"+cfg.Mode, 1)
 		}
